@@ -148,8 +148,10 @@ __CPROVER_ensures(HOK(self) && WF(self) && RAW(self) == count && BALANCE(self))
 __CPROVER_assigns(FRAME)
 #include "SV_resize.body.inc"
 
-void SV_resize_value(SV* self, size_t count, T_tag value)
+/* resize(count, value): `value` is a const T&; as for std::vector it may refer to an element of this very vector (v.resize(n, v[0])) */
+void SV_resize_value(SV* self, size_t count, Arg value)
 __CPROVER_requires(WF(self) && ENTRY(self) && count <= CAP_MAX / 2 - 1)
+__CPROVER_requires(value.is_ref ==> (value.blk == DATA(self) && value.idx < RAW(self) && !g_vacated[value.blk]))
 __CPROVER_ensures(HOK(self) && WF(self) && RAW(self) == count && BALANCE(self))
 __CPROVER_assigns(FRAME)
 #include "SV_resize_value.body.inc"
@@ -222,7 +224,7 @@ void h_SV_destroyAll(void) { SV v; mk(&v, 0); SV_destroyAll(&v); }
 void h_SV_emplace_back(void) { SV v; mk(&v, 0); Arg a; a.val = nondet_int(); a.is_ref = nondet_bool(); a.blk = DATA(&v); a.idx = nondet_size_t(); if (a.is_ref) __CPROVER_assume(a.idx < RAW(&v)); SV_emplace_back(&v, a); }
 void h_SV_pop_back(void) { SV v; mk(&v, 0); SV_pop_back(&v); }
 void h_SV_resize(void) { SV v; mk(&v, 0); size_t c; BND(c); SV_resize(&v, c); }
-void h_SV_resize_value(void) { SV v; mk(&v, 0); size_t c; BND(c); T_tag x; SV_resize_value(&v, c, x); }
+void h_SV_resize_value(void) { SV v; mk(&v, 0); size_t c; BND(c); Arg x; SV_resize_value(&v, c, x); }
 void h_SV_erase(void) { SV v; mk(&v, 0); size_t p; SV_erase(&v, p); }
 void h_SV_clear(void) { SV v; mk(&v, 0); SV_clear(&v); }
 void h_SV_reserve(void) { SV v; mk(&v, 0); size_t c; BND(c); SV_reserve(&v, c); }
